@@ -229,6 +229,15 @@ func Run(t *testing.T, cfg Config, body func()) *Result {
 		}
 		res.End = e.end
 		res.Steps = e.steps
+		if e.end == "deadlock" {
+			// the scenario's driver (root) is blocked for good and nothing else can run: its
+			// oracles never ran, which must not read as a pass
+			var ps []string
+			for _, p := range res.Parked {
+				ps = append(ps, fmt.Sprintf("%s(%s %s@%s)", p.ID, p.Name, p.Op, p.Site))
+			}
+			res.Violations = append(res.Violations, Violation{Key: "STUCK", Msg: "the driver is blocked forever and nothing is enabled (an operation it called never returned); parked: " + strings.Join(ps, "; ")})
+		}
 		ex = nil
 	})
 	return res
